@@ -432,11 +432,11 @@ func (r *Receiver) DeleteHandlerFunc(w http.ResponseWriter, req *http.Request) {
 	slog.Debug("DeleteHandlerFunc called", "url", req.URL.Path)
 }
 
-// removeOldSegments removes all media segments in trDir with sequence number up to and including lastSeqNr,
-// except the ones that keep returns true for.
+// removeSegmentsOutside removes all media segments in trDir with sequence number below firstSeqNr or above
+// lastSeqNr, except the ones that keep returns true for.
 // These are not only the ones falling out of the buffer one by one, but also segments left behind
 // before a gap in the sequence numbers or before a restart of the receiver.
-func removeOldSegments(log *slog.Logger, trDir string, lastSeqNr uint32, keep func(seqNr uint32) bool) {
+func removeSegmentsOutside(log *slog.Logger, trDir string, firstSeqNr, lastSeqNr uint32, keep func(seqNr uint32) bool) {
 	entries, err := os.ReadDir(trDir)
 	if err != nil {
 		log.Warn("Failed to list segments", "dir", trDir, "err", err)
@@ -448,17 +448,17 @@ func removeOldSegments(log *slog.Logger, trDir string, lastSeqNr uint32, keep fu
 			continue
 		}
 		seqNr, err := strconv.ParseUint(strings.TrimSuffix(name, filepath.Ext(name)), 10, 32)
-		if err != nil || uint32(seqNr) > lastSeqNr {
+		if err != nil || (uint32(seqNr) >= firstSeqNr && uint32(seqNr) <= lastSeqNr) {
 			continue // Init segment or segment inside the buffer
 		}
 		if keep(uint32(seqNr)) {
 			continue
 		}
 		deleteSegPath := filepath.Join(trDir, name)
-		log.Debug("Deleting old segment", "path", deleteSegPath)
+		log.Debug("Deleting segment outside buffer", "path", deleteSegPath)
 		err = os.Remove(deleteSegPath)
 		if err != nil {
-			log.Warn("Failed to delete old segment", "path", deleteSegPath, "err", err)
+			log.Warn("Failed to delete segment", "path", deleteSegPath, "err", err)
 		}
 	}
 }
